@@ -379,6 +379,14 @@ func main() {
 		agg.add(r.sum, r.sigs)
 
 		if f, ok := r.sum["failure"].(map[string]any); ok && f != nil {
+			// keep the worker's own bytes: decoding into float64 would round the 64-bit
+			// PCT seed and the minimiser would replay a different schedule
+			var exact struct {
+				Failure json.RawMessage `json:"failure"`
+			}
+
+			json.Unmarshal(r.raw, &exact)
+			f["_raw"] = string(exact.Failure)
 			f["_log"] = r.log
 			failures = append(failures, f)
 		}
@@ -411,8 +419,9 @@ func main() {
 		violations = len(failures)
 
 		failPath := filepath.Join(scratch, "fail.json")
-		fd, _ := json.Marshal(f)
-		os.WriteFile(failPath, fd, 0o644)
+		fraw, _ := f["_raw"].(string)
+		delete(f, "_raw")
+		os.WriteFile(failPath, []byte(fraw), 0o644)
 
 		minPath := filepath.Join(scratch, "min.json")
 
@@ -432,13 +441,14 @@ func main() {
 			}
 
 			if cfg.Race {
-				var m map[string]any
-
+				// add the detector's report as the trace without re-encoding the numbers
 				md, _ := os.ReadFile(minPath)
-				json.Unmarshal(md, &m)
-				m["trace"] = strings.Split(tailStr(raceReport(wlog), 120), "\n")
-				md, _ = json.MarshalIndent(m, "", " ")
-				os.WriteFile(minPath, md, 0o644)
+				tr, _ := json.Marshal(strings.Split(tailStr(raceReport(wlog), 120), "\n"))
+
+				if i := bytes.LastIndexByte(md, '}'); i > 0 {
+					md = append(append(append([]byte{}, md[:i]...), []byte(",\n \"trace\": "+string(tr)+"\n")...), '}', '\n')
+					os.WriteFile(minPath, md, 0o644)
+				}
 			}
 		}
 
